@@ -113,3 +113,17 @@ theorem sepB_after_clone (f : Forest) (inv : f.Inv) (C : HTree) (f' : Forest)
   omega
 
 end XotModel
+
+namespace XotModel
+
+/-- The C04 history type `Op` is the sub-language of `Step` histories the public API can issue. -/
+theorem Forest.step_eq_stepAll (f : Forest) (o : Op) : f.step o = f.stepAll o.toStep := by
+  cases o <;> rfl
+
+theorem Forest.run_eq_runAll (f : Forest) (ops : List Op) : f.run ops = f.runAll (ops.map Op.toStep) := by
+  unfold Forest.run Forest.runAll
+  induction ops generalizing f with
+  | nil => rfl
+  | cons o ops ih => simp only [List.foldl_cons, List.map_cons]; rw [Forest.step_eq_stepAll]; exact ih _
+
+end XotModel
